@@ -145,7 +145,12 @@ class SyncedList(SyncedCollection, MutableSequence):
                 for i in range(min(len(self), len(data))):
                     if data[i] == self._data[i]:
                         continue
-                    if _sc_resolver.get_type(self._data[i]) == "SYNCEDCOLLECTION":
+                    # A value of None must replace the nested collection
+                    # (for _update, None means "leave the data unchanged").
+                    if (
+                        data[i] is not None
+                        and _sc_resolver.get_type(self._data[i]) == "SYNCEDCOLLECTION"
+                    ):
                         try:
                             self._data[i]._update(data[i])
                             continue
